@@ -55,6 +55,8 @@ type v8S struct {
 	L *int           `json:"l,omitempty"`
 	M any            `json:"m"`
 	N [0]int         `json:"n,omitempty"`
+	O int            `json:"-,"`
+	P string         `json:"-,omitempty"`
 }
 
 func v8bool(b bool) string {
@@ -103,41 +105,52 @@ func vc08_composite(json bool, lo, hi int) {
 		v, want = &p, v8itoa(a)
 	case 10:
 		var s v8S
-		s.A = v8small()
-		s.B = v8word()
-		switch vsym_choice(5) {
+		s.A, s.e, s.F = 4, 7, []int{1}
+		d, l := 5, 0
+		// one field group varies at a time, the others keep fixed values
+		switch vsym_choice(8) {
+		case 0:
+			s.A = v8small()
+			s.B = v8word()
 		case 1:
-			s.C = 0
+			switch vsym_choice(5) {
+			case 1:
+				s.C = 0
+			case 2:
+				s.C = ""
+			case 3:
+				s.C = false
+			case 4:
+				s.C = []int{}
+			}
 		case 2:
-			s.C = ""
+			d = v8small()
+			if vsym_bool() {
+				s.D = &d
+			}
 		case 3:
-			s.C = false
+			s.G = vsym_bool()
+			s.K = uint8(v8small() & 3)
 		case 4:
-			s.C = []int{}
-		}
-		d := v8small()
-		if vsym_bool() {
-			s.D = &d
-		}
-		s.e = 7
-		s.F = []int{1}
-		s.G = vsym_bool()
-		switch vsym_choice(3) {
-		case 1:
-			s.H = []int{}
-		case 2:
-			s.H = []int{3}
-		}
-		if vsym_bool() {
-			s.I = map[string]int{}
-		}
-		s.K = uint8(v8small() & 3)
-		l := 0
-		if vsym_bool() {
-			s.L = &l
-		}
-		if vsym_bool() {
-			s.M = s.B
+			switch vsym_choice(3) {
+			case 1:
+				s.H = []int{}
+			case 2:
+				s.H = []int{3}
+			}
+		case 5:
+			if vsym_bool() {
+				s.I = map[string]int{}
+			}
+		case 6:
+			if vsym_bool() {
+				s.L = &l
+			}
+		case 7:
+			s.B = "w"
+			if vsym_bool() {
+				s.M = s.B
+			}
 		}
 		want = "{\"a\":" + v8itoa(s.A)
 		if s.B != "" {
@@ -175,7 +188,7 @@ func vc08_composite(json bool, lo, hi int) {
 		} else {
 			want += ",\"m\":\"" + s.B + "\""
 		}
-		want += "}"
+		want += ",\"-\":0}"
 		if vsym_bool() {
 			v = &s
 		} else {
